@@ -282,7 +282,12 @@ void c02_body(Tape& t, Ctx& ctx, SplineCase<D>& c, bool enumerated) {
     gen_durations(t, alt.N, wellscaled_ratio(S), alt.T, &alt.sigma, &alt.ratio, &alt.dur_shape, &alt.shape);
     alt.t0 = c.t0; gen_data(t, alt);
     int what = t.range(0, 2);
-    if (what == 0) { old.bc = alt.bc; if (t.chance(1, 3)) old.bc = BoundaryConditions<D>(); }
+    if (what == 0) {
+      old.bc = alt.bc;
+      int v = t.range(0, 2);
+      if (v == 1) old.bc = BoundaryConditions<D>();
+      else if (v == 2) { old.bc = c.bc; bool e = t.flag(); int m = t.range(1, 3); old.bc_field(e, m) = alt.bc_field(e, m); }   // exactly one boundary field differs
+    }
     else if (what == 1) old.P = alt.P;
     else { old.T = alt.T; if (t.flag() && N >= 2) { old.T = c.T; std::rotate(old.T.begin(), old.T.begin() + 1, old.T.end()); } }
     bool pts = t.flag();
@@ -581,7 +586,27 @@ void c18_case(Tape& t, Ctx& ctx) {
   c.sigma = std::sqrt(lo * hi);
   c.t0 = 0;
   gen_data(t, c, false);
-  Spline sp(c.T, c.P, c.t0, c.bc);
+  // mostly a fresh object; also through the time-point overload, and an object that held the same problem except for one
+  // ingredient (one boundary field / the boundary argument / the waypoints / the order of the durations) before the update
+  int route = t.pickw({4, 1, 2});
+  Spline sp;
+  bool via_points = false;
+  if (route == 0) sp = Spline(c.T, c.P, c.t0, c.bc);
+  else if (route == 1) { sp = Spline(c.time_points(), c.P, c.bc); via_points = true; }
+  else {
+    SplineCase<D> old = c, alt = c;
+    gen_data(t, alt, false);
+    int what = t.range(0, 3);
+    if (what == 0) old.bc = alt.bc;
+    else if (what == 1) { bool e = t.flag(); int m = t.range(1, 3); old.bc_field(e, m) = alt.bc_field(e, m); if (old.bc_field(e, m) == c.bc_field(e, m)) old.bc_field(e, m)(0) += 1.0 / c.sigma; }
+    else if (what == 2) old.P = alt.P;
+    else std::rotate(old.T.begin(), old.T.begin() + 1, old.T.end());
+    via_points = t.flag();
+    if (via_points) { sp = Spline(old.time_points(), old.P, old.bc); sp.update(c.time_points(), c.P, c.bc); }
+    else { sp = Spline(old.T, old.P, old.t0, old.bc); sp.update(c.T, c.P, c.t0, c.bc); }
+  }
+  ctx.label(route == 0 ? "route:fresh(durations)" : (route == 1 ? "route:fresh(time points)" : "route:reused-after-same-problem-but-one-ingredient"));
+  if (via_points) c.T = sp.getTimeSegments();
   const auto& C = sp.getTrajectory().getCoefficients();
   Residuals R = spline_residuals<D>(C, c);
   ctx.label(std::string("order:") + SplineOf<D, S>::name());
